@@ -575,7 +575,7 @@ def r3_9(ctx, R):
                 if drops and not any(b.dominates(db, ebb) for db in drops):
                     ok = True
             ctx.ob("R3.9", b, "enqueue-under-the-slot-lock@%s" % _site_label(b, ebb), ok, b.loc(ebb))
-    ctx.floor("R3.9", "flag-field-borrows", n, 3)
+    ctx.floor("R3.9", "flag-field-borrows", n, 2)
 
 
 def run(ctx):
